@@ -330,6 +330,8 @@ def grpcOutcome (kind : String) (code : Nat) : Option GrpcOutcome :=
   | "nomethod" => some .unknownMethod
   | "badpayload" => some .badPayload
   | "marshal" => some .marshalErr
+  | "bad" => some .invalidAmmo          -- a line the provider could not decode, delivered as an invalid ammo
+  | "invalid" => some .invalidAmmo
   | _ => none
 
 def handleGrpc (kv : List (String × String)) (impl : String) : String × String :=
